@@ -28,6 +28,15 @@ CHECKS = {
              'ok(v)/err/unspecified with the Dec operator, model-checks DecodedIsValid and StrictRefinesLenient, and the harness '
              'requires the real decoder to return exactly v, or raise ValidationError, and never any other exception.',
         ref='3.5, 4 (C06), Appendix B'),
+    'C08': dict(
+        technique='TLA+ spec StoneRuntimeMC (Accepts/Norm reference predicate + attribute get/set/delete machine) explored by TLC; every transition replayed on generated classes',
+        text='TLC enumerates every (declared type of ~110: each numeric primitive with unset/extreme/extreme+-1/small bounds, strings with '
+             'length and pattern, Bytes, Boolean, Timestamp, lists/maps/nullables of them, structs with subclasses, enumerated-subtype '
+             'roots, unions and child unions, aliases incl. alias-of-nullable; slot state; operation; argument at bound-1/bound/bound+1 '
+             'and every wrong Python kind) transition (~1.9*10^5), checks SlotHoldsDeclaredType/NormStable/WireValidAccepted on the model, '
+             'and each transition is replayed: setattr/getattr/delattr on a generated struct, the generated union member constructor, '
+             'json_compat_obj_decode of a primitive; accepted iff Accepts, refusal must be ValidationError, read-back must equal Norm.',
+        ref='3.4, 4 (C08)'),
     'C13': dict(
         technique='TLA+ spec StoneAnnotMC (permission- and redaction-aware Enc/Dec) model-checked by TLC; every state replayed through json_encode/json_decode',
         text='TLC explores every (24 schema variants placing Omitted/RedactedBlot/RedactedHash on struct fields, inherited, patched and '
